@@ -310,6 +310,12 @@ MsgLoop:
 				return
 			}
 			continue MsgLoop
+		default: // reserved frame type
+			// The payload of a frame of unknown type cannot be interpreted, and
+			// there is no message to hand to the router: end the connection.
+			rs.log.Print("Received frame of reserved type, closing")
+			_ = rs.conn.Close()
+			return
 		}
 
 		// It is OK for the router to block a client since routing should be
